@@ -878,6 +878,7 @@ def exec_versions(case):
                     for shnum, raw in s.shares_of(fsi).items():
                         foreign_raw[shnum] = raw
         prev_down = []
+        ever_disturbed = [False]
         held_versions = {}
         for vi, op in enumerate(pubs):
             _, size, pat, down = op[:4]
@@ -970,6 +971,10 @@ def exec_versions(case):
                     g.reconnect(w, g.servers[sidx])
             this_down, prev_down_now = down, prev_down
             prev_down = down
+            if down or rollback:
+                # from here on the grid may hold older copies of a share number on servers the writer's (bounded) survey does
+                # not reach: "strictly increasing" is then only promised relative to what each survey observes
+                ever_disturbed[0] = True
             if st != "ok":
                 probe("publish-failed-" + (err_name(res) if st == "err" else st))
                 if node is None:
@@ -985,7 +990,7 @@ def exec_versions(case):
                     vi, max(wrote), observed_before_write(mon.answers[a0:], w.sim_name, max(wrote))))
             # (after a rollback by the servers the writer cannot know its own previous sequence number: only the
             # survey clause above applies)
-            if not this_down and not prev_down_now and not rollback and newest[1] <= last_seq:
+            if not this_down and not prev_down_now and not rollback and not ever_disturbed[0] and newest[1] <= last_seq:
                 bad("C11", "seqnum-not-increased", "publish %d (all servers reachable, also during the previous publish) succeeded with sequence number %d, previous was %d" % (vi, newest[1], last_seq))
             last_seq = newest[1] if rollback else max(last_seq, newest[1])
             published[newest] = data
